@@ -1,16 +1,19 @@
 import IdspModel.Lemmas.Atan2Main
 /-!
-# C02 — `atan2`: no panic, quadrant-correct and reflection-symmetric outside the defect set
+# C02 — `atan2`: no panic, quadrant-correct and reflection-symmetric
 
-Property theorems only (helpers: `IdspModel/Lemmas/Atan2*.lean`).  All statements are about the checked-mode
-model `atan2 .checked` (overflow checks and debug assertions on) for ALL `i32` operand pairs.
+Property theorems only (helpers: `IdspModel/Lemmas/Atan2*.lean`).  The statements hold for ALL `i32` operand
+pairs; they are stated for the checked-mode model `atan2 .checked` (overflow checks and debug assertions on), and
+`atan2_release_eq_checked` shows that the release build computes the same value.
 
-Findings recorded here:
-* `atan2 (±3) (±3)` panics (checked) / is 1.87 rad off (release): `atan2Bad` is exactly this set
-  (`atan2_panics_iff`); every theorem below carries the guard `¬ atan2Bad y x`.
-* On a mirror line the literal reflection clause of C02 fails (`*_full_false`): `atan2 0 x = 5215` for every
-  `x ≥ 2` (`atan2_axis_offset`), `atan2 2 2 = 2^29 + 2599`.  Off the mirror lines the reflections are exact
-  complements, i.e. reflections to within one LSB.
+History: on the original code `atan2 (±3) (±3)` panicked (checked) / was 1.87 rad off (release), because `divi`
+rounds the divisor down and produced the quotient `1.5·2^16` for `y = x = 3`, which overflowed `x * x` in `atani`.
+The defect was repaired upstream (commit "fix: atan2(±3, ±3) overflowed in atani": the quotient is clamped to
+`1 << 16` in `divi`); the model follows the repaired code and the theorems below carry no guard any more.
+
+Finding that remains (true of the repaired code as well): on a mirror line the literal reflection clause of C02
+fails (`*_full_false`): `atan2 0 x = 5215` for every `x ≥ 2` (`atan2_axis_offset`), `atan2 2 2 = 2^29 + 2599`.
+Off the mirror lines the reflections are exact complements, i.e. reflections to within one LSB.
 The numeric accuracy against the real arctangent is not treated here.
 -/
 namespace Idsp
@@ -18,47 +21,35 @@ namespace Idsp
 /-! ## 1. `divi`: the quotient field -/
 
 /-- For every first-octant operand pair `0 ≤ y ≤ x < 2^31`, `divi` does not panic (in particular
-    `x += (1 << (15 - z)) - 1` does not overflow).  `x ≤ 1` gives `0`.  Otherwise the result is
-    `q·2^15 + 2^14` with a quotient field `0 ≤ q`; `q ≤ 2^16 + 1` except on the diagonal at odd `x < 2^17`, where
-    `q = 2^16 + ⌊2^15 / ((x-1)/2)⌋` exactly; `q = 0` on the axis `y = 0`; and `q ≤ 2^16 + 2^14 = 81920` for
-    every pair other than `(3,3)`. -/
+    `x += (1 << (15 - z)) - 1` does not overflow) and returns the same value in both build modes.  `x ≤ 1` gives
+    `0`.  Otherwise the result is `q·2^15 + 2^14` with a quotient field `0 ≤ q ≤ 2^16` (no exception on the
+    diagonal any more: the quotient is clamped), and `q = 0` on the axis `y = 0`. -/
 theorem divi_quotient_bound {y x : Int} (hy : 0 ≤ y) (hyx : y ≤ x) (hx : x < 2 ^ 31) :
-    (x ≤ 1 ∧ divi .checked y x = .ok 0) ∨
-    (2 ≤ x ∧ ∃ q : Int, divi .checked y x = .ok (q * 2 ^ 15 + 2 ^ 14) ∧ 0 ≤ q ∧ (y = 0 → q = 0) ∧
-      (q ≤ 2 ^ 16 + 1 ∨
-        (y = x ∧ x % 2 = 1 ∧ x < 2 ^ 17 ∧ q = 2 ^ 16 + 2 ^ 15 / ((x - 1) / 2))) ∧
-      (¬(y = 3 ∧ x = 3) → q ≤ 81920)) := by
-  rcases divi_spec hy hyx hx with h | ⟨h2, q, hd, hq0, hqz, hq⟩
-  · exact Or.inl h
-  · refine Or.inr ⟨h2, q, hd, hq0, hqz, hq, fun hbad => ?_⟩
-    rcases hq with h | ⟨rfl, hodd, h17, rfl⟩
-    · omega
-    · have h5 : 2 ≤ (y - 1) / 2 := by omega
-      have := Int.ediv_le_of_le_mul (a := 2 ^ 15) (b := 2 ^ 14) (c := (y - 1) / 2) (by omega) (by omega)
-      omega
+    (x ≤ 1 ∧ ∀ m, divi m y x = .ok 0) ∨
+    (2 ≤ x ∧ ∃ q : Int, (∀ m, divi m y x = .ok (q * 2 ^ 15 + 2 ^ 14)) ∧ 0 ≤ q ∧ q ≤ 2 ^ 16 ∧
+      (y = 0 → q = 0)) :=
+  divi_spec hy hyx hx
 
-/-- the defect: `divi 3 3` has quotient field `1.5·2^16 = 98304` (`x` is rounded down to `1`) -/
-theorem divi_defect_witness : divi .checked 3 3 = .ok (98304 * 2 ^ 15 + 2 ^ 14) := by decide +kernel
+/-- the formerly defective pair: the raw quotient `3·2^15 / 1 = 1.5·2^16` is clamped to `2^16` -/
+example : divi .checked 3 3 = .ok (2 ^ 16 * 2 ^ 15 + 2 ^ 14) := by decide +kernel
+/-- the clamp is also active away from tiny operands (raw quotient `2^16 + 1`), and the bound `2^16` is attained
+    without it (`(2,2)`) -/
+example : divi .checked 131074 131074 = .ok (2 ^ 16 * 2 ^ 15 + 2 ^ 14) := by decide +kernel
+example : divi .checked 2 2 = .ok (2 ^ 16 * 2 ^ 15 + 2 ^ 14) := by decide +kernel
+example : divi .checked 1000 3000 = .ok (21845 * 2 ^ 15 + 2 ^ 14) := by decide +kernel
 
-/-- the bound `81920` is attained: `(5,5)`; and `2^16 + 1` is attained off the small-odd diagonal -/
-example : divi .checked 5 5 = .ok (81920 * 2 ^ 15 + 2 ^ 14) := by decide +kernel
-example : divi .checked 131074 131074 = .ok ((2 ^ 16 + 1) * 2 ^ 15 + 2 ^ 14) := by decide +kernel
+/-! ## 2. `atani` on every quotient field (complete kernel-evaluated table, 65 537 points) -/
 
-/-! ## 2. `atani` on every quotient field (complete kernel-evaluated table, 81 921 points) -/
-
-/-- For EVERY quotient field `q ≤ 81920`, `atani` at `q·2^15 + 2^14` does not overflow in any intermediate
-    (checked mode returns `ok`), and the value lies in `[5215, 609661461]`, so it is `< 2^30`;
-    it is `≤ 2^29 + 2599` for `q ≤ 2^16` and `≤ 2^29 + 7807` for `q ≤ 2^16 + 1`. -/
-theorem atani_range (q : Nat) (hq : q ≤ 81920) :
-    ∃ r : Int, atani .checked ((q : Int) * 2 ^ 15 + 2 ^ 14) = .ok r ∧ 5215 ≤ r ∧ r ≤ 609661461 ∧
-      (q ≤ 65537 → r ≤ 2 ^ 29 + 7807) ∧ (q ≤ 65536 → r ≤ 2 ^ 29 + 2599) := by
+/-- For EVERY quotient field `q ≤ 2^16` (all that `divi` can produce), `atani` at `q·2^15 + 2^14` does not
+    overflow in any intermediate (checked mode returns `ok`, and the release build returns the same value), and
+    the value lies in `[5215, 2^29 + 2599]`, so it is `< 2^30`. -/
+theorem atani_range (q : Nat) (hq : q ≤ 65536) :
+    ∃ r : Int, (∀ m, atani m ((q : Int) * 2 ^ 15 + 2 ^ 14) = .ok r) ∧ 5215 ≤ r ∧ r ≤ 2 ^ 29 + 2599 := by
   obtain ⟨r, hr, _, h1⟩ := atanQ_ok q hq
-  refine ⟨r, hr, atanQ_mono (Nat.zero_le q) hq atanQ_0 hr, h1, fun h => ?_, fun h => ?_⟩
-  · exact atanQ_mono h (by omega) hr atanQ_65537
-  · exact atanQ_mono h (by omega) hr atanQ_65536
+  exact ⟨r, atani_all_modes hr, atanQ_mono (Nat.zero_le q) hq atanQ_0 hr, h1⟩
 
 /-- `atani` is non-decreasing over the whole table -/
-theorem atani_mono {q q' : Nat} (h : q ≤ q') (h' : q' ≤ 81920) {r r' : Int}
+theorem atani_mono {q q' : Nat} (h : q ≤ q') (h' : q' ≤ 65536) {r r' : Int}
     (hr : atani .checked ((q : Int) * 2 ^ 15 + 2 ^ 14) = .ok r)
     (hr' : atani .checked ((q' : Int) * 2 ^ 15 + 2 ^ 14) = .ok r') : r ≤ r' :=
   atanQ_mono h h' hr hr'
@@ -66,43 +57,53 @@ theorem atani_mono {q q' : Nat} (h : q ≤ q') (h' : q' ≤ 81920) {r r' : Int}
 /-- `atani 0 = 0` (the value `divi` returns when the larger operand is `≤ 1`) -/
 theorem atani_at_zero : atani .checked 0 = .ok 0 := atani_zero
 
+/-- whenever the checked build of `atani` returns a value (for any argument at all), the release build returns
+    the same value: the release build never wraps silently where the checked build would not panic -/
+theorem atani_release_eq_checked {x v : Int} (h : atani .checked x = .ok v) : atani .release x = .ok v :=
+  atani_release h
+
 /-- the ends of the table -/
 example : atani .checked (0 * 2 ^ 15 + 2 ^ 14) = .ok 5215 := atanQ_0
 example : atani .checked (65536 * 2 ^ 15 + 2 ^ 14) = .ok (2 ^ 29 + 2599) := atanQ_65536
-example : atani .checked (81920 * 2 ^ 15 + 2 ^ 14) = .ok 609661461 := atanQ_81920
+/-- outside the range that `divi` now produces, `atani` does overflow: the old quotient of `(3,3)` -/
+example : atani .checked (98304 * 2 ^ 15 + 2 ^ 14) = .error ⟨"atan2.rs:22 x * x"⟩ := by decide +kernel
 
 /-! ## 3. totality -/
 
-/-- The exact set on which checked `atan2` panics, for in-range operands: `|y| = |x| = 3`. -/
-theorem atan2Bad_char {y x : Int} (hy : inI 32 y = true) (hx : inI 32 x = true) :
-    atan2Bad y x ↔ (y = 3 ∨ y = -3) ∧ (x = 3 ∨ x = -3) := atan2Bad_iff hy hx
-
-/-- No input other than `(±3, ±3)` makes `atan2` panic or overflow: for every `i32` pair outside the bad set the
-    checked model returns a value, and it is an `i32`. -/
-theorem atan2_total {y x : Int} (hy : inI 32 y = true) (hx : inI 32 x = true) (hbad : ¬ atan2Bad y x) :
+/-- No input makes `atan2` panic or overflow: for EVERY `i32` pair the checked model returns a value, and it is
+    an `i32`. -/
+theorem atan2_total {y x : Int} (hy : inI 32 y = true) (hx : inI 32 x = true) :
     ∃ r, atan2 .checked y x = .ok r ∧ inI 32 r = true := by
-  obtain ⟨r0, _, h0, h1, _, _, _, _, hv⟩ := atan2_checked hy hx hbad
-  refine ⟨_, hv, ?_⟩
+  obtain ⟨r0, _, h0, h1, _, _, _, hv⟩ := atan2_val hy hx
+  refine ⟨_, hv .checked, ?_⟩
   unfold atanMax at h1
   rw [inI_iff]
   simp only [unfoldOct, Nat.reduceSub]
   split <;> split <;> split <;> omega
 
-/-- conversely the four bad pairs do panic, so the guard is exact -/
-theorem atan2_panics_iff {y x : Int} (hy : inI 32 y = true) (hx : inI 32 x = true) :
-    (∃ e, atan2 .checked y x = .error e) ↔ atan2Bad y x := by
-  constructor
-  · intro ⟨e, he⟩
-    apply Classical.byContradiction
-    intro hbad
-    obtain ⟨r, hr, _⟩ := atan2_total hy hx hbad
-    rw [hr] at he; cases he
-  · intro hb
-    rcases (atan2Bad_iff hy hx).mp hb with ⟨rfl | rfl, rfl | rfl⟩ <;>
-      exact ⟨⟨"atan2.rs:22 x * x"⟩, by decide +kernel⟩
+/-- `atan2` never panics (checked build), for every `i32` pair -/
+theorem atan2_never_panics {y x : Int} (hy : inI 32 y = true) (hx : inI 32 x = true) (e : Panic) :
+    atan2 .checked y x ≠ .error e := by
+  obtain ⟨r, hr, _⟩ := atan2_total hy hx
+  rw [hr]; intro h; cases h
+
+/-- The release build (wrapping arithmetic, no debug assertions) returns exactly the value of the checked build,
+    for every `i32` pair: no operation wraps. -/
+theorem atan2_release_eq_checked {y x : Int} (hy : inI 32 y = true) (hx : inI 32 x = true) :
+    atan2 .release y x = atan2 .checked y x := by
+  obtain ⟨r0, _, _, _, _, _, _, hv⟩ := atan2_val hy hx
+  rw [hv .release, hv .checked]
 
 /-- `atan2(0, 0) = 0` -/
 theorem atan2_zero_zero : atan2 .checked 0 0 = .ok 0 := by decide +kernel
+
+/-- the formerly defective pairs `(±3, ±3)`: now the diagonal value `2^29 + 2599` in each quadrant, in both
+    build modes (before the fix: panic in the checked build, `-738580716` etc. in the release build) -/
+theorem atan2_repaired_witness :
+    atan2 .checked 3 3 = .ok (2 ^ 29 + 2599) ∧ atan2 .checked 3 (-3) = .ok (2 ^ 31 - 1 - (2 ^ 29 + 2599)) ∧
+    atan2 .checked (-3) 3 = .ok (-1 - (2 ^ 29 + 2599)) ∧
+    atan2 .checked (-3) (-3) = .ok (-(2 ^ 31) + (2 ^ 29 + 2599)) ∧
+    atan2 .release 3 3 = .ok (2 ^ 29 + 2599) := by decide +kernel
 
 /-- `i32::MIN` operands are handled by saturation (examples; they are instances of `atan2_total`) -/
 example : atan2 .checked (-2 ^ 31) (-2 ^ 31) = .ok (-1610615353) := by decide +kernel
@@ -110,20 +111,10 @@ example : atan2 .checked (-2 ^ 31) 0 = .ok (-1073736609) := by decide +kernel
 example : atan2 .checked 0 (-2 ^ 31) = .ok 2147478432 := by decide +kernel
 example : atan2 .checked (-2 ^ 31) (2 ^ 31 - 1) = .ok (-536868296) := by decide +kernel
 /-- the hypotheses of `atan2_total` are satisfiable at a non-trivial point -/
-example : inI 32 (-2 ^ 31) = true ∧ inI 32 (2 ^ 31 - 1) = true ∧ ¬ atan2Bad (-2 ^ 31) (2 ^ 31 - 1) := by
-  refine ⟨by decide, by decide, ?_⟩
-  rw [atan2Bad_iff (by decide) (by decide)]; decide
-
-/-- the full (unguarded) totality statement … -/
-def atan2_total_full : Prop :=
-  ∀ y x : Int, inI 32 y = true → inI 32 x = true → ∃ r, atan2 .checked y x = .ok r
-
-/-- … is false: `atan2(3, 3)` panics on `x * x` in `atani` -/
-theorem atan2_total_full_false : ¬ atan2_total_full := by
-  intro h
-  obtain ⟨r, hr⟩ := h 3 3 (by decide) (by decide)
-  have : atan2 .checked 3 3 = .error ⟨"atan2.rs:22 x * x"⟩ := by decide +kernel
-  rw [this] at hr; cases hr
+example : inI 32 (-2 ^ 31) = true ∧ inI 32 (2 ^ 31 - 1) = true := by decide
+/-- small diagonal points (tolerance `1/max(|x|,|y|)` rad): `(1,1) ↦ 0`, all others `2^29 + 2599` -/
+example : atan2 .checked 1 1 = .ok 0 ∧ atan2 .checked 2 2 = .ok (2 ^ 29 + 2599) ∧
+    atan2 .checked 5 5 = .ok (2 ^ 29 + 2599) := by decide +kernel
 
 /-! ## 4. the XOR re-expansion -/
 
@@ -174,14 +165,14 @@ example : octMask false false false = 0 ∧ octMask false false true = 2 ^ 30 - 
 
 /-- The four quadrants with their exact value ranges (the boundaries are strict: the result never sits on the
     wrong side of an axis, not even by one LSB). -/
-theorem atan2_quadrant {y x r : Int} (hy : inI 32 y = true) (hx : inI 32 x = true) (hbad : ¬ atan2Bad y x)
+theorem atan2_quadrant {y x r : Int} (hy : inI 32 y = true) (hx : inI 32 x = true)
     (h : atan2 .checked y x = .ok r) :
     (0 ≤ y → 0 ≤ x → 0 ≤ r ∧ r < 2 ^ 30) ∧
     (0 ≤ y → x < 0 → 2 ^ 30 < r ∧ r < 2 ^ 31) ∧
     (y < 0 → 0 ≤ x → -(2 ^ 30) ≤ r ∧ r < 0) ∧
     (y < 0 → x < 0 → -(2 ^ 31) ≤ r ∧ r < -(2 ^ 30) - 1) := by
-  obtain ⟨r0, _, h0, h1, _, h5, _, _, hv⟩ := atan2_checked hy hx hbad
-  have hr : r = _ := Except.ok.inj (h.symm.trans hv)
+  obtain ⟨r0, _, h0, h1, _, h5, _, hv⟩ := atan2_val hy hx
+  have hr : r = _ := Except.ok.inj (h.symm.trans (hv .checked))
   have ⟨y0, y1⟩ := satAbs_range hy
   have ⟨x0, x1⟩ := satAbs_range hx
   have hsx := satAbs_of_in hx
@@ -213,30 +204,29 @@ theorem atan2_quadrant {y x r : Int} (hy : inI 32 y = true) (hx : inI 32 x = tru
         Bool.false_eq_true] <;> omega
 
 /-- The result is negative exactly when `y < 0`. -/
-theorem atan2_sign {y x r : Int} (hy : inI 32 y = true) (hx : inI 32 x = true) (hbad : ¬ atan2Bad y x)
+theorem atan2_sign {y x r : Int} (hy : inI 32 y = true) (hx : inI 32 x = true)
     (h : atan2 .checked y x = .ok r) : r < 0 ↔ y < 0 := by
-  have := atan2_quadrant hy hx hbad h
+  have := atan2_quadrant hy hx h
   omega
 
 /-- The magnitude is at most a quarter turn exactly when `x ≥ 0`: `-2^30 ≤ r < 2^30 ↔ 0 ≤ x`. -/
-theorem atan2_half_plane {y x r : Int} (hy : inI 32 y = true) (hx : inI 32 x = true) (hbad : ¬ atan2Bad y x)
+theorem atan2_half_plane {y x r : Int} (hy : inI 32 y = true) (hx : inI 32 x = true)
     (h : atan2 .checked y x = .ok r) : (-(2 ^ 30) ≤ r ∧ r < 2 ^ 30) ↔ 0 ≤ x := by
-  have := atan2_quadrant hy hx hbad h
+  have := atan2_quadrant hy hx h
   omega
 
 /-- On the positive x axis the result is the constant offset `5215` LSB (`≈ 7.6e-6` rad: inside the accuracy
     tolerance of C02, but not within 1 LSB of the axis), for EVERY `x ≥ 2`. -/
 theorem atan2_axis_offset {x : Int} (h2 : 2 ≤ x) (hx : x < 2 ^ 31) : atan2 .checked 0 x = .ok 5215 := by
   have hx' : inI 32 x = true := by rw [inI_iff]; simp only [Nat.reduceSub]; omega
-  have hbad : ¬ atan2Bad 0 x := by rw [atan2Bad_iff (by decide) hx']; omega
-  obtain ⟨r0, _, _, _, _, _, _, h6, hv⟩ := atan2_checked (y := 0) (by decide) hx' hbad
+  obtain ⟨r0, _, _, _, _, _, h6, hv⟩ := atan2_val (y := 0) (by decide) hx'
   have s0 : satAbs 0 = 0 := by decide
   have sx : satAbs x = x := by rw [satAbs_of_in hx']; split <;> omega
   rw [s0, sx] at h6 hv
   have hmin := Int.min_def 0 x
   have hmax := Int.max_def 0 x
   have : r0 = 5215 := h6 (by split at hmin <;> omega) (by split at hmax <;> omega)
-  rw [hv, this]
+  rw [hv .checked, this]
   have d2 : decide (x < 0) = false := by simp; omega
   simp [unfoldOct, d2]
 
@@ -245,17 +235,17 @@ theorem atan2_axis_offset {x : Int} (h2 : 2 ≤ x) (hx : x < 2 ^ 31) : atan2 .ch
 /-- Reflection about the x axis, `y ≠ 0` (and `-y` representable, i.e. `y ≠ i32::MIN`):
     `atan2(-y, x) = -1 - atan2(y, x)` — the exact reflection `-r`, to within one LSB. -/
 theorem atan2_reflect_x_axis {y x r : Int} (hy : inI 32 y = true) (hny : inI 32 (-y) = true)
-    (hx : inI 32 x = true) (hbad : ¬ atan2Bad y x) (hy0 : y ≠ 0) (h : atan2 .checked y x = .ok r) :
+    (hx : inI 32 x = true) (hy0 : y ≠ 0) (h : atan2 .checked y x = .ok r) :
     atan2 .checked (-y) x = .ok (-1 - r) := by
   have hs := satAbs_neg hy hny
-  have hbad' : ¬ atan2Bad (-y) x := by unfold atan2Bad at hbad ⊢; rwa [hs]
-  obtain ⟨r0, e0, _, _, _, _, _, _, hv⟩ := atan2_checked hy hx hbad
-  obtain ⟨r0', e0', _, _, _, _, _, _, hv'⟩ := atan2_checked hny hx hbad'
-  rw [oct0_neg_y _ _ hy hny] at e0'
-  have : r0' = r0 := Except.ok.inj (e0'.symm.trans e0)
+  obtain ⟨r0, e0, _, _, _, _, _, hv⟩ := atan2_val hy hx
+  obtain ⟨r0', e0', _, _, _, _, _, hv'⟩ := atan2_val hny hx
+  have e0c := e0' .checked
+  rw [oct0_neg_y _ _ hy hny] at e0c
+  have : r0' = r0 := Except.ok.inj (e0c.symm.trans (e0 .checked))
   subst this
-  have hr : r = _ := Except.ok.inj (h.symm.trans hv)
-  rw [hv', hr, hs]
+  have hr : r = _ := Except.ok.inj (h.symm.trans (hv .checked))
+  rw [hv' .checked, hr, hs]
   congr 1
   simp only [unfoldOct]
   by_cases hy1 : y < 0
@@ -267,20 +257,20 @@ theorem atan2_reflect_x_axis {y x r : Int} (hy : inI 32 y = true) (hny : inI 32 
 /-- Reflection about the y axis, `x ≠ 0` (and `x ≠ i32::MIN`): `atan2(y, -x) = 2^31 - 1 - atan2(y, x)` reduced
     to `i32` — the exact reflection `2^31 - r` (half a turn minus `r`), to within one LSB. -/
 theorem atan2_reflect_y_axis {y x r : Int} (hy : inI 32 y = true) (hx : inI 32 x = true)
-    (hnx : inI 32 (-x) = true) (hbad : ¬ atan2Bad y x) (hx0 : x ≠ 0) (h : atan2 .checked y x = .ok r) :
+    (hnx : inI 32 (-x) = true) (hx0 : x ≠ 0) (h : atan2 .checked y x = .ok r) :
     atan2 .checked y (-x) = .ok (wrapI 32 (2 ^ 31 - 1 - r)) ∧
     (0 ≤ y → atan2 .checked y (-x) = .ok (2 ^ 31 - 1 - r)) ∧
     (y < 0 → atan2 .checked y (-x) = .ok (-(2 ^ 31) - 1 - r)) := by
   have hs := satAbs_neg hx hnx
-  have hbad' : ¬ atan2Bad y (-x) := by unfold atan2Bad at hbad ⊢; rwa [hs]
-  obtain ⟨r0, e0, h0, h1, _, _, _, _, hv⟩ := atan2_checked hy hx hbad
-  obtain ⟨r0', e0', _, _, _, _, _, _, hv'⟩ := atan2_checked hy hnx hbad'
-  rw [oct0_neg_x _ _ hx hnx] at e0'
-  have : r0' = r0 := Except.ok.inj (e0'.symm.trans e0)
+  obtain ⟨r0, e0, h0, h1, _, _, _, hv⟩ := atan2_val hy hx
+  obtain ⟨r0', e0', _, _, _, _, _, hv'⟩ := atan2_val hy hnx
+  have e0c := e0' .checked
+  rw [oct0_neg_x _ _ hx hnx] at e0c
+  have : r0' = r0 := Except.ok.inj (e0c.symm.trans (e0 .checked))
   subst this
-  have hr : r = _ := Except.ok.inj (h.symm.trans hv)
+  have hr : r = _ := Except.ok.inj (h.symm.trans (hv .checked))
   unfold atanMax at h1
-  rw [hv', hr, hs]
+  rw [hv' .checked, hr, hs]
   have key : ∀ (ny sw : Bool) (a b : Bool), a = !b →
       unfoldOct ny a sw r0' = (if ny then -(2 ^ 31) - 1 - unfoldOct ny b sw r0'
         else 2 ^ 31 - 1 - unfoldOct ny b sw r0') := by
@@ -323,17 +313,17 @@ theorem atan2_reflect_y_axis {y x r : Int} (hy : inI 32 y = true) (hx : inI 32 x
 /-- Reflection about the diagonal, `|y| ≠ |x|`: `atan2(x, y) = 2^30 - 1 - atan2(y, x)` reduced to `i32` — the
     exact reflection `2^30 - r` (a quarter turn minus `r`), to within one LSB. -/
 theorem atan2_reflect_diagonal {y x r : Int} (hy : inI 32 y = true) (hx : inI 32 x = true)
-    (hbad : ¬ atan2Bad y x) (hne : satAbs y ≠ satAbs x) (h : atan2 .checked y x = .ok r) :
+    (hne : satAbs y ≠ satAbs x) (h : atan2 .checked y x = .ok r) :
     atan2 .checked x y = .ok (wrapI 32 (2 ^ 30 - 1 - r)) := by
-  have hbad' : ¬ atan2Bad x y := by unfold atan2Bad at hbad ⊢; exact fun ⟨a, b⟩ => hbad ⟨b, a⟩
-  obtain ⟨r0, e0, h0, h1, _, _, _, _, hv⟩ := atan2_checked hy hx hbad
-  obtain ⟨r0', e0', _, _, _, _, _, _, hv'⟩ := atan2_checked hx hy hbad'
-  rw [oct0_swap] at e0'
-  have : r0' = r0 := Except.ok.inj (e0'.symm.trans e0)
+  obtain ⟨r0, e0, h0, h1, _, _, _, hv⟩ := atan2_val hy hx
+  obtain ⟨r0', e0', _, _, _, _, _, hv'⟩ := atan2_val hx hy
+  have e0c := e0' .checked
+  rw [oct0_swap] at e0c
+  have : r0' = r0 := Except.ok.inj (e0c.symm.trans (e0 .checked))
   subst this
-  have hr : r = _ := Except.ok.inj (h.symm.trans hv)
+  have hr : r = _ := Except.ok.inj (h.symm.trans (hv .checked))
   unfold atanMax at h1
-  rw [hv', hr]
+  rw [hv' .checked, hr]
   congr 1
   have hflag : decide (satAbs y < satAbs x) = !decide (satAbs x < satAbs y) := by
     by_cases hlt : satAbs x < satAbs y
@@ -355,18 +345,17 @@ theorem atan2_min_saturates {x r : Int} (hx : inI 32 x = true) (h : atan2 .check
   have hmin : inI 32 (-(2 ^ 31)) = true := by decide
   have s1 : satAbs (2 ^ 31 - 1) = 2 ^ 31 - 1 := by decide
   have s2 : satAbs (-(2 ^ 31)) = 2 ^ 31 - 1 := by decide
-  have hb1 : ¬ atan2Bad (2 ^ 31 - 1) x := by unfold atan2Bad; rw [s1]; omega
-  have hb2 : ¬ atan2Bad (-(2 ^ 31)) x := by unfold atan2Bad; rw [s2]; omega
-  obtain ⟨r0, e0, _, _, _, _, _, _, hv⟩ := atan2_checked hmax hx hb1
-  obtain ⟨r0', e0', _, _, _, _, _, _, hv'⟩ := atan2_checked hmin hx hb2
+  obtain ⟨r0, e0, _, _, _, _, _, hv⟩ := atan2_val hmax hx
+  obtain ⟨r0', e0', _, _, _, _, _, hv'⟩ := atan2_val hmin hx
   have e : oct0 .checked (-(2 ^ 31)) x = oct0 .checked (2 ^ 31 - 1) x := by unfold oct0; rw [s1, s2]
-  rw [e] at e0'
-  have : r0' = r0 := Except.ok.inj (e0'.symm.trans e0)
+  have e0c := e0' .checked
+  rw [e] at e0c
+  have : r0' = r0 := Except.ok.inj (e0c.symm.trans (e0 .checked))
   subst this
-  have hr : r = _ := Except.ok.inj (h.symm.trans hv)
+  have hr : r = _ := Except.ok.inj (h.symm.trans (hv .checked))
   have d1 : decide ((-(2 ^ 31) : Int) < 0) = true := by decide
   have d2 : decide ((2 ^ 31 - 1 : Int) < 0) = false := by decide
-  rw [hv', hr, s1, s2, d1, d2]
+  rw [hv' .checked, hr, s1, s2, d1, d2]
   simp only [unfoldOct, if_true, Bool.false_eq_true, if_false]
 
 /-- All four half-axes (`a ≥ 2`): the result is the axis angle displaced by the constant `5215` LSB towards the
@@ -377,16 +366,14 @@ theorem atan2_axes {a : Int} (h2 : 2 ≤ a) (ha : a < 2 ^ 31) :
   have ia : inI 32 a = true := by rw [inI_iff]; simp only [Nat.reduceSub]; omega
   have ina : inI 32 (-a) = true := by rw [inI_iff]; simp only [Nat.reduceSub]; omega
   have i0 : inI 32 0 = true := by decide
-  have b1 : ¬ atan2Bad 0 a := by rw [atan2Bad_iff i0 ia]; omega
-  have b2 : ¬ atan2Bad a 0 := by rw [atan2Bad_iff ia i0]; omega
   have s0 : satAbs 0 = 0 := by decide
   have sa : satAbs a = a := by rw [satAbs_of_in ia]; split <;> omega
   have h0 := atan2_axis_offset h2 ha
-  have h1 := atan2_reflect_diagonal i0 ia b1 (by rw [s0, sa]; omega) h0
+  have h1 := atan2_reflect_diagonal i0 ia (by rw [s0, sa]; omega) h0
   have w : wrapI 32 (2 ^ 30 - 1 - 5215) = 2 ^ 30 - 1 - 5215 := by decide
   rw [w] at h1
-  have h3 := (atan2_reflect_y_axis i0 ia ina b1 (by omega) h0).2.1 (by omega)
-  have h4 := atan2_reflect_x_axis ia ina i0 b2 (by omega) h1
+  have h3 := (atan2_reflect_y_axis i0 ia ina (by omega) h0).2.1 (by omega)
+  have h4 := atan2_reflect_x_axis ia ina i0 (by omega) h1
   refine ⟨h0, h1, h3, ?_⟩
   rw [h4]; congr 1
 
@@ -438,23 +425,5 @@ theorem atan2_reflect_diagonal_full_false : ¬ atan2_reflect_diagonal_full := by
   have w : wrapI 32 (536873511 + 536873511 - 2 ^ 30) = 5198 := by decide
   rw [w] at this
   omega
-
-/-! ## 7. the defect at `(±3, ±3)` -/
-
-/-- checked build: panic ("multiply with overflow" at `x * x` in `atani`) for all four sign combinations -/
-theorem atan2_defect_checked :
-    atan2 .checked 3 3 = .error ⟨"atan2.rs:22 x * x"⟩ ∧ atan2 .checked 3 (-3) = .error ⟨"atan2.rs:22 x * x"⟩ ∧
-    atan2 .checked (-3) 3 = .error ⟨"atan2.rs:22 x * x"⟩ ∧
-    atan2 .checked (-3) (-3) = .error ⟨"atan2.rs:22 x * x"⟩ := by decide +kernel
-
-/-- release build: wrong by 1.87 rad (`1 LSB = π/2^31`): `atan2(3,3) = -738580716` instead of `≈ 2^29`, and
-    likewise for the other sign combinations (`≈ 3·2^29, -2^29, -3·2^29` expected) -/
-theorem atan2_defect_release :
-    atan2 .release 3 3 = .ok (-738580716) ∧ atan2 .release 3 (-3) = .ok (-1408902933) ∧
-    atan2 .release (-3) 3 = .ok 738580715 ∧ atan2 .release (-3) (-3) = .ok 1408902932 := by decide +kernel
-
-/-- the neighbouring diagonal points are fine (tolerance `1/max(|x|,|y|)` rad): `(1,1) ↦ 0`, `(2,2)`, `(5,5)` -/
-example : atan2 .checked 1 1 = .ok 0 ∧ atan2 .checked 2 2 = .ok (2 ^ 29 + 2599) ∧
-    atan2 .checked 5 5 = .ok 609661461 := by decide +kernel
 
 end Idsp
